@@ -71,7 +71,10 @@ strict_grammar = ('RINGInput', {
     'GroupName': All(Filler('group'), String()),
     'BondType': Literals(['single', 'double', 'triple', 'ring', 'nonring',
                           'aromatic', 'any', 'strong', 'partial']),
-    'AtomChain': All(Either('BondedAtom', 'RingBond'),
+    # statements that start with a keyword are tried first: 'ringbond labeledx
+    # ring bond to c' is a ring bond of the label 'labeledx', not an atom of
+    # element 'ringbond' labeled 'x'
+    'AtomChain': All(Either('RingBond', 'BondedAtom'),
                      Optional('AtomChain')),
     'BondedAtom': All('AtomType', Filler('labeled'), 'AtomLabel', 'BondType',
                       Filler('bond to'), 'AtomLabel',
@@ -199,7 +202,7 @@ enhanced_grammar[1]['AtomSuffix'] = Literals(['+', '-', '.', ':', '+.',
                                               '-.', '*', '?', ':.'])
 # Stereochemsitry
 enhanced_grammar[1]['AtomChain'] =\
-    All(Either('BondedAtom', 'RingBond', 'StereoDoubleBond'),
+    All(Either('RingBond', 'StereoDoubleBond', 'BondedAtom'),
         Optional('AtomChain'))
 enhanced_grammar[1]['StereoDoubleBond'] =\
     All(Filler('stereo double bond'), 'AtomLabel',
